@@ -341,7 +341,7 @@ func genSingle(seed uint64, prop string, k SingleKnobs) *Plan {
 							// the worker that ingests the re-fire is suspended right before one of
 							// its first store critical sections (between looking the group up and
 							// inserting into it), while the group's flush of the resolution may run
-							p.Holds = append(p.Holds, Hold{Site: "auto.store", Match: fmt.Sprintf("%s@%d", labelsKey(ls), int64(rat)), Nth: ra.Intn(3), Delay: ra.Dur(300*time.Millisecond, 2*time.Second) + 3})
+							p.Holds = append(p.Holds, Hold{Site: "auto.store", Match: fmt.Sprintf("%s@%d", labelsKey(ls), int64(rat)), Nth: ra.Intn(5), Delay: ra.Dur(300*time.Millisecond, 2*time.Second) + 3})
 						}
 						t = ft + hb
 						continue
@@ -472,6 +472,11 @@ func genSingle(seed uint64, prop string, k SingleKnobs) *Plan {
 	// the ingestion path
 	if ra := rng.Fork("autoholds"); ra.Bool(k.PHolds) {
 		p.Holds = append(p.Holds, AutoHolds(ra, AutoSitesIngest, ra.Range(1, 3), 120, time.Millisecond, 800*time.Millisecond)...)
+	}
+
+	// the maintenance sweep suspended right before one of its operations on the group map
+	if rm := rng.Fork("sweephold"); rm.Bool(k.PHolds * 0.5) {
+		p.Holds = append(p.Holds, Hold{Site: "auto.lock", Match: "dispatch.Dispatcher.doMaintenance", Nth: rm.Intn(12), Delay: rm.Dur(500*time.Millisecond, 3*time.Second) + 5})
 	}
 
 	// probes
